@@ -388,8 +388,8 @@ class C32(Prop):
         for x in (f, b):
             if x is not None and "r" not in x and x.get("err") not in ("ValueError", "TypeError"):
                 return None
-        r1 = coq_opt(f.get("r"), self._jv)
-        r2 = coq_opt(b.get("r") if b else None, self._jv)
+        r1 = f"(Some {self._jv(f['r'])})" if "r" in f else "None"
+        r2 = f"(Some {self._jv(b['r'])})" if b is not None and "r" in b else "None"
         return f"CValue {coq_str(c['old'])} {coq_str(c['new'])} {self._jv(c['v'])} {r1} {r2}"
 
     def nontrivial(self, c):
